@@ -3,7 +3,7 @@
    the engine's checked arithmetic. *)
 From Coq Require Import ZArith NArith Arith List Bool Lia.
 From LV Require Import Model.QuerySpecList Proofs.QuerySpecList Model.CheckedArith Proofs.CheckedArith
-     Model.QuerySpec.
+     Model.QuerySpec Model.SortKernels Proofs.SortKernels.
 Import ListNotations.
 
 (* ---- matching is reflexive ---------------------------------------------------------------------- *)
@@ -181,19 +181,50 @@ Lemma spec_arith_matches_kernel op a b :
   match perform_checked op a b with
   | RVal v false => spec_arith op a b = EVal (VInt v)
   | RVal _ true => spec_arith op a b = EOverflow
-  | RPanic => spec_arith op a b = EVal (VInt 0)          (* i64::MIN % -1: the exact value *)
   end.
 Proof.
-  intros Ha Hb. destruct (perform_checked op a b) as [v o|] eqn:P.
-  - destruct o.
-    + destruct (perform_checked_flag op a b v Ha Hb P) as [H|[[z [H Hz]]|[-> [-> ->]]]]; unfold spec_arith.
-      * rewrite H. reflexivity.
-      * rewrite H, Hz. reflexivity.
-      * reflexivity.
-    + destruct (perform_checked_exact op a b v Ha Hb P) as [H Hv]. unfold spec_arith. rewrite H, Hv.
-      destruct op; try reflexivity. cbn [andb negb].
-      unfold perform_checked in P.
-      destruct ((b =? 0)%Z || ((a <=? - i64_max)%Z && (b =? -1)%Z)) eqn:G; [discriminate|].
-      apply orb_false_iff in G as [_ G]. rewrite G. reflexivity.
-  - apply perform_checked_panic_iff in P as (-> & -> & ->). reflexivity.
+  intros Ha Hb. destruct (perform_checked op a b) as [v o] eqn:P.
+  destruct o.
+  - destruct (perform_checked_flag op a b v Ha Hb P) as [H|[[z [H Hz]]|[-> [-> ->]]]]; unfold spec_arith.
+    + rewrite H. reflexivity.
+    + rewrite H, Hz. reflexivity.
+    + reflexivity.
+  - destruct (perform_checked_exact op a b v Ha Hb P) as [H Hv]. unfold spec_arith. rewrite H, Hv.
+    destruct op; try reflexivity. cbn [andb negb].
+    unfold perform_checked in P.
+    destruct ((b =? 0)%Z || ((a <=? - i64_max)%Z && (b =? -1)%Z)) eqn:G; [discriminate|].
+    apply orb_false_iff in G as [_ G]. rewrite G. reflexivity.
+Qed.
+
+(* ---- the engine's final slice is the specification's LIMIT / OFFSET window ------------------------ *)
+
+Lemma window_some_spec {A} (off lim : N) (l : list A) :
+  window off (Some lim) l = firstn (N.to_nat lim) (skipn (N.to_nat off) l).
+Proof.
+  unfold window. change (@qfirstn A) with (@firstn A). change (@qskipn A) with (@skipn A).
+  assert (Hs : skipn (N.to_nat (N.min off (N.of_nat (length l)))) l = skipn (N.to_nat off) l).
+  { destruct (N.le_gt_cases off (N.of_nat (length l))) as [H|H].
+    - rewrite (N.min_l _ _ H). reflexivity.
+    - rewrite N.min_r by lia. rewrite Nnat.Nat2N.id.
+      replace (skipn (length l) l) with (@nil A) by (symmetry; apply skipn_all2; lia).
+      symmetry. apply skipn_all2. lia. }
+  rewrite Hs. set (rest := skipn (N.to_nat off) l).
+  destruct (N.le_gt_cases lim (N.of_nat (length rest))) as [H|H].
+  - rewrite (N.min_l _ _ H). reflexivity.
+  - rewrite N.min_r by lia. rewrite Nnat.Nat2N.id. rewrite !firstn_all2; [reflexivity|lia|lia].
+Qed.
+
+Theorem final_slice_is_window {A} (lim off : N) (rows : list A) :
+  final_slice lim off rows = window off (Some lim) rows.
+Proof. rewrite final_slice_spec, window_some_spec. reflexivity. Qed.
+
+(* no LIMIT clause is LIMIT u64::MAX in the engine: the same window as "no limit" for any list whose
+   length fits in u64 *)
+Lemma window_none_is_big_limit {A} (off lim : N) (l : list A) :
+  (N.of_nat (length l) <= lim)%N -> window off (Some lim) l = window off None l.
+Proof.
+  intros H. unfold window. change (@qfirstn A) with (@firstn A). change (@qskipn A) with (@skipn A).
+  set (rest := skipn (N.to_nat (N.min off (N.of_nat (length l)))) l).
+  assert (Hr : (N.of_nat (length rest) <= lim)%N) by (unfold rest; rewrite skipn_length; lia).
+  rewrite N.min_r by exact Hr. rewrite Nnat.Nat2N.id. apply firstn_all.
 Qed.
